@@ -214,6 +214,16 @@ Theorem C03names_eqb_sound :
   (forall a b, mclosuredef_eqb a b = true -> a = b).
 Proof. exact top_eqb_sound. Qed.
 
+(* the MIR validator with the externally defined names as parameters decides the declarative statement; the validator of
+   the elimination theorems is its instance "built-in class / _Str, _Vec" *)
+Theorem C03names_mir_no_dangling_ext_correct : forall ext_fn ext_ty P,
+    mir_no_dangling_ext ext_fn ext_ty P = true <-> MirClosed ext_fn ext_ty P.
+Proof. exact top_mir_no_dangling_ext_correct. Qed.
+
+Theorem C03names_mir_no_dangling_is_ext : forall P,
+    mir_no_dangling P = mir_no_dangling_ext (fun f => builtin_cls (fn_cls f)) builtin_ty P.
+Proof. exact top_mir_no_dangling_is_ext. Qed.
+
 (* the hypotheses m_wf / d_wf / l_wf are decidable; the tie evaluates them on every real input *)
 Theorem C03names_wf_decidable :
   (forall P, m_wf_b P = true -> m_wf P /\ d_wf P) /\ (forall P, l_wf_b P = true -> l_wf P).
@@ -284,3 +294,5 @@ Print Assumptions C03names_dedup_sem.
 Print Assumptions C03names_dedup_panics_iff.
 Print Assumptions C03names_eqb_sound.
 Print Assumptions C03names_wf_decidable.
+Print Assumptions C03names_mir_no_dangling_ext_correct.
+Print Assumptions C03names_mir_no_dangling_is_ext.
